@@ -232,12 +232,16 @@ class AdaptiveSupport(BaseAdaptiveSupport):
     .. math::
 
         \sigma_k = \sigma_{k-1} + \alpha_{k-1}
-            \left[\left(k - k_0\right)^{-\beta} - 0.1\right]\frac{\Delta}{10},
+            \left[\left(k - k_0\right)^{-\beta} - T^{-\beta}\right]
+            \frac{\Delta}{10},
 
     where :math:`\alpha_{k-1} = 1 - \xi` if the previous iteration was
     accpeted and :math:`\alpha_{k-1} = -\xi` if the previous iteration was
     rejected. Here, :math:`\xi` is the target acceptance rate, :math:`\Delta`
-    is the prior width, :math:`\beta` is the adaptation decay, and :math:`k_0`
+    is the prior width, :math:`\beta` is the adaptation decay, :math:`T` is the
+    adaptation duration (so that the bracket is positive throughout the
+    adaptation and vanishes at its end; for the default decay
+    :math:`T^{-\beta} = 0.1`), and :math:`k_0`
     gives the iteration after which the adaptation begins. The initial standard
     deviation :math:`\sigma_0` to use is a free parameter. The default in this
     function is to use :math:`\sigma_0 = (1-\xi)0.09\Delta`.
@@ -291,6 +295,8 @@ class AdaptiveSupport(BaseAdaptiveSupport):
         if adaptation_decay is None:
             adaptation_decay = 1./numpy.log10(self.adaptation_duration)
         self.adaptation_decay = adaptation_decay
+        self._decay_const = float(self.adaptation_duration)**(
+            -self.adaptation_decay)
         self.target_rate = target_rate
         if initial_std is None:
             initial_std = (1 - self.target_rate)*0.09*self.deltas
@@ -338,7 +344,7 @@ class AdaptiveSupport(BaseAdaptiveSupport):
         """
         dk = self.nsteps - self.start_step + 1
         if 1 <= dk < self.adaptation_duration:
-            dk = dk**(-self.adaptation_decay) - 0.1
+            dk = dk**(-self.adaptation_decay) - self._decay_const
             if chain.acceptance[-1]['accepted']:
                 alpha = 1 - self.target_rate
             else:
